@@ -546,7 +546,7 @@ func runTwin(c Case) (applied int, err error) {
 		if st.T != edited {
 			break // the operation continued on a new object
 		}
-		if st.T.Root().Nneigh() < 2 || len(st.T.Tips()) < 3 {
+		if len(st.T.Tips()) < 3 {
 			break
 		}
 	}
